@@ -188,7 +188,7 @@ class Gen:
             s = sum(wts)
             add('Categorical.sample', 'sample.Categorical usize %s %d %s' % (LF([math.log(w / s) for w in wts]), n, L(sw)))
             a1, a2 = pos(), pos()
-            add('UnitPowerLaw.set_alpha', 'hist.UnitPowerLaw f64 %s %s %s' % (fx(a1), fx(a2), L([ws1[0], rw()])))
+            add('UnitPowerLaw.set_alpha', 'drawhist.UnitPowerLaw f64 %s %s %s' % (fx(a1), fx(a2), L([ws1[0], rw()])))
             add('fma', 'fma - %s %s %s' % (fx(real() * 10 ** r.randint(-300, 300)), fx(real() * 10 ** r.randint(-10, 10)), fx(real() * 10 ** r.randint(-300, 300))))
             x, y = r.uniform(-2, 2), r.uniform(-2, 2)
             add('fma', 'fma - %s %s %s' % (fx(x), fx(y), fx(-x * y)))
